@@ -55,13 +55,27 @@ fn do_fit(x: &Array2<f64>, c: &Cfg) -> Result<Result<FitOut, String>, String> {
     guarded(move || {
         let rng = Xoshiro256Plus::seed_from_u64(c2.seed);
         let ds = DatasetBase::from(x2);
-        let r = GaussianMixtureModel::params_with_rng(c2.k, rng)
-            .tolerance(c2.tol)
-            .reg_covariance(c2.reg)
-            .n_runs(c2.n_runs)
-            .max_n_iterations(c2.max_iter)
-            .init_method(if c2.random_init { GmmInitMethod::Random } else { GmmInitMethod::KMeans })
-            .fit(&ds);
+        let init = if c2.random_init { GmmInitMethod::Random } else { GmmInitMethod::KMeans };
+        // both ways of building the parameter set: rng first, or every setter first and `with_rng` last
+        // (which copies the fields one by one)
+        let r = if c2.seed % 2 == 0 {
+            GaussianMixtureModel::params_with_rng(c2.k, rng)
+                .tolerance(c2.tol)
+                .reg_covariance(c2.reg)
+                .n_runs(c2.n_runs)
+                .max_n_iterations(c2.max_iter)
+                .init_method(init)
+                .fit(&ds)
+        } else {
+            GaussianMixtureModel::params(c2.k)
+                .tolerance(c2.tol)
+                .reg_covariance(c2.reg)
+                .n_runs(c2.n_runs)
+                .max_n_iterations(c2.max_iter)
+                .init_method(init)
+                .with_rng(rng)
+                .fit(&ds)
+        };
         match r {
             Ok(m) => Ok(FitOut {
                 w: m.weights().to_vec(),
@@ -358,6 +372,8 @@ fn main() {
         let desc = desc_json("exact", 0, x.len(), d, &cfg, "", &x[0]);
         let mut tags: Vec<String> = vec!["stream_exact".into(), format!("k_{}", k), format!("d_{}", d), format!("init_{}", if cfg.random_init { "random" } else { "kmeans" })];
         if cfg.reg == 0.0 { tags.push("reg_zero".into()); }
+        // a blob with at most d points has an exactly singular covariance (rank <= points - 1 < d)
+        if (0..k).any(|b| lab.iter().filter(|&&l| l == b).count() <= d) { tags.push("tiny_blob".into()); }
         out.bump("stream_exact");
         out.bump(&format!("exact_k_{}", k));
         let res = do_fit(&xa, &cfg);
